@@ -457,8 +457,28 @@ class HistGen:
         detached or replaced, its children still held by other variables; biased to children whose class is NOT (a
         subclass of) the first member of a union-typed child field"""
         rng, u = self.rng, self.u
-        which = rng.choice(["alive", "fresh", "partly", "partly", "union", "union", "union"])
+        which = rng.choice(["alive", "fresh", "partly", "partly", "union", "union", "union", "twin", "twin"])
         slot = rng.randrange(3)
+        if which == "twin":
+            # the SECOND of two identical trees over the same (still held) children is written, both parents are dropped
+            # and the value is read back: its serialized id carries a collision suffix that is free again, so the forced-id
+            # branch of _deserialize runs while live descendants exist (seeded change C10-8)
+            cands = [c for c in self.cnames if any(f.role != "Prop" for f in u.merged(c))]
+            if not cands:
+                return
+            dst0 = self.free_var()
+            self.emit_new(dst0, rng.choice(cands), want_kids=True)
+            if self.vars[dst0] is None or dst0 in self.maybe:
+                return
+            dst1 = self.free_var(avoid=(dst0,))
+            self.emit_new(dst1, self.vars[dst0].cls, recipe=self.vars[dst0], avoid=(dst0,))
+            if self.vars[dst1] is None or dst1 in self.maybe:
+                return
+            self.emit_asdict((dst1, 0, self.vars[dst1]), slot)
+            self.drop(dst0)
+            self.drop(dst1)
+            self.emit_asobj(slot, dst=self.free_var())
+            return
         if which in ("alive", "fresh"):
             loc = self.pick_loc(inner=0.2)
             if loc is None:
